@@ -31,27 +31,8 @@ MakeKp ==
   /\ pc' = <<"call", 1>>
   /\ UNCHANGED sc
 
-\* preprocess(k, share, rng) -> nonces <<nn, j>>, commitments <<cn, j>>, j = 1..k
 ActPreprocess(nn, cn, kph, bs) ==
-  /\ Has(kph)
-  /\ LET k == Len(bs) \div 2
-         RECURSIVE Run(_, _, _)
-         Run(r, j, acc) ==
-           IF j > k THEN {<<r, acc>>}
-           ELSE UNION { Run(o[1], j + 1, Append(acc, o[2])) :
-                          o \in Outcomes(r, "commit", [share |-> env[kph].share, b1 |-> bs[2*j - 1], b2 |-> bs[2*j]]) }
-     IN \E o \in Run(ro, 1, << >>) :
-          LET pairs == o[2] IN
-          /\ ro' = o[1]
-          /\ Finish("preprocess", [ok |-> TRUE, pairs |-> pairs],
-                    [h \in {<<nn, j>> : j \in 1..k} \cup {<<cn, j>> : j \in 1..k} |->
-                       IF h[1] = nn THEN [ty |-> "non", hiding |-> pairs[h[2]].hiding, binding |-> pairs[h[2]].binding,
-                                          D |-> pairs[h[2]].D, E |-> pairs[h[2]].E]
-                       ELSE [ty |-> "comm", D |-> pairs[h[2]].D, E |-> pairs[h[2]].E]],
-                    [op |-> "preprocess", k |-> k, out_non |-> nn, out_comm |-> cn, kp |-> kph, rng32 |-> bs,
-                     expect |-> [ok |-> TRUE,
-                                 pairs |-> [j \in 1..k |-> [hiding |-> pairs[j].hiding, binding |-> pairs[j].binding,
-                                                            D |-> pairs[j].D, E |-> pairs[j].E]]]])
+  ActPreprocessR(nn, cn, kph, [j \in DOMAIN bs |-> Rand32(bs[j])], [rng32 |-> bs])
 
 Call ==
   /\ pc[1] = "call"
